@@ -37,12 +37,15 @@ const NACC = 6
 var natives = []string{"ukex", "ubtc", "xeth", "frozen"}
 var stakable = []string{"ukex", "ubtc"}
 
-func newEnv(seed uint64, dist hx.Counter) *env {
+func newEnv(seed uint64, dist hx.Counter) *env { return newEnvN(seed, dist, NACC, 2) }
+
+// a chain with nAcc funded accounts and nVal validators (validator i is owned by account i)
+func newEnvN(seed uint64, dist hx.Counter, nAcc, nVal int) *env {
 	e := &env{r: hx.NewRng(seed), acc: map[string]int64{}, accName: map[int64]string{}, den: map[string]int64{}, denName: map[int64]string{},
 		spools: map[string]int64{}, dapps: map[string]int64{}, colls: map[string]int64{}, recs: map[string]int64{}, dist: dist,
 		shareSet: map[int64][2]int64{}, bk: 1}
 	// the default UBI record alone exceeds the default hard cap, so no UBI proposal could pass: the cap is raised in the genesis
-	e.c = abci.NewChain(abci.Config{Accounts: NACC, Validators: 2, Seed: 7, Gov: func(g *govtypes.GenesisState) { g.NetworkProperties.UbiHardcap = 60_000_000 }})
+	e.c = abci.NewChain(abci.Config{Accounts: nAcc, Validators: nVal, Seed: 7, Gov: func(g *govtypes.GenesisState) { g.NetworkProperties.UbiHardcap = 60_000_000 }})
 	for name, id := range moduleIDs {
 		a := authtypes.NewModuleAddress(name).String()
 		e.acc[a] = id
@@ -206,10 +209,11 @@ func (e *env) claimRewards(u int) bool {
 	return e.tx("claim_rewards", u, []sdk.Msg{mstypes.NewMsgClaimRewards(e.addr(u))}, model, map[string]interface{}{"account": u})
 }
 
-func (e *env) slash(v int, pct int64) bool {
+func (e *env) slash(v int, pct int64) bool { return e.slashDec(v, sdk.NewDecWithPrec(pct, 2)) }
+
+func (e *env) slashDec(v int, frac sdk.Dec) bool {
 	p, found := e.poolOf(v)
 	var model []string
-	frac := sdk.NewDecWithPrec(pct, 2)
 	if found {
 		var ds []string
 		for _, c := range p.TotalStakingTokens {
@@ -220,7 +224,23 @@ func (e *env) slash(v int, pct int64) bool {
 	return e.direct("slash", func(ctx sdk.Context) error {
 		e.c.App.MultiStakingKeeper.SlashStakingPool(ctx, e.valStr(v), frac)
 		return nil
-	}, model, nil, map[string]interface{}{"validator": v, "percent": pct})
+	}, model, nil, map[string]interface{}{"validator": v, "fraction": frac.String()})
+}
+
+// IncreasePoolRewards with an exact allocation (the over-credit clause compares the credited claims with it)
+func (e *env) rewardExact(v int, rewards sdk.Coins) bool {
+	p, found := e.poolOf(v)
+	if !found {
+		return false
+	}
+	var alloc []string
+	for _, c := range rewards {
+		alloc = append(alloc, fmt.Sprintf("(%d, %s)", e.denID(c.Denom), hx.ZInt(c.Amount)))
+	}
+	return e.direct("reward_alloc", func(ctx sdk.Context) error {
+		e.c.App.MultiStakingKeeper.IncreasePoolRewards(ctx, p, rewards)
+		return nil
+	}, nil, alloc, map[string]interface{}{"validator": v, "rewards": rewards.String()})
 }
 
 // reward allocation as AllocateTokens does it: a part of the fees collected since the last allocation
